@@ -16,7 +16,7 @@ import (
 func c18Composite(c *Ctx, env *cssEnv) {
 	R := c.R
 	e := csslang.NewEnv(env.A)
-	in := csslang.NewInterp(e, c.P.CSS, env.vars)
+	in := csslang.NewInterp(e, c.P.CSSOrig, env.vars)
 	for name, m := range cssMembers(c) {
 		if m.verified {
 			in.Members[name] = m.strIdx
@@ -27,7 +27,7 @@ func c18Composite(c *Ctx, env *cssEnv) {
 	nExact, nInexact := 0, 0
 	var table []map[string]any
 	for _, n := range names {
-		fd := c.P.CSS.Types.Scope().Lookup(n)
+		fd := c.P.CSSOrig.Types.Scope().Lookup(n)
 		pos := ""
 		if fd != nil {
 			pos = c.P.Pos(fd.Pos())
